@@ -37,15 +37,33 @@ def stepC (c : Ctl) : Op → Option Ctl
     (findSlice c.slices ns name).map fun o =>
       runAll { c with slices := c.slices.filter (fun x => !(x.ns = ns ∧ x.name = name)) } [.slDel o]
   | .pod v =>
-    some (runAll { c with pods := upsertBy (fun x => x.ns = v.ns ∧ x.name = v.name) v c.pods } [podEvOf c v])
+    if v.phase = "F" then
+      -- the informer's field selector: a Failed pod is a DELETE carrying the new object, if the pod was known
+      (findPod c.pods v.ns v.name).map fun _ =>
+        runAll { c with pods := c.pods.filter (fun x => !(x.ns = v.ns ∧ x.name = v.name)) } [.podDel v]
+    else
+      some (runAll { c with pods := upsertBy (fun x => x.ns = v.ns ∧ x.name = v.name) v c.pods } [podEvOf c v])
   | .delPod ns name =>
     (findPod c.pods ns name).map fun o =>
       runAll { c with pods := c.pods.filter (fun x => !(x.ns = ns ∧ x.name = name)) } [.podDel o]
   | .node v => some { c with nodes := upsertBy (fun x => x.name = v.name) v c.nodes }
   | .delNode name =>
     if c.nodes.any (·.name = name) then some { c with nodes := c.nodes.filter (·.name ≠ name) } else none
+  | .ns v =>
+    let e := match c.nss.find? (fun n => n.name = v.name) with
+      | none => Ev.nsAdd v
+      | some o => Ev.nsUpd o v
+    some (runAll { c with nss := upsertBy (fun x => x.name = v.name) v c.nss } [e])
+  | .delNs name =>
+    (c.nss.find? (fun n => n.name = name)).map fun o =>
+      runAll { c with nss := c.nss.filter (fun x => !(x.name = name)) } [.nsDel o]
   | .hold => none
   | .release => some c
+
+theorem stepC_pod (c : Ctl) (v : Pod) (hph : v.phase ≠ "F") :
+    stepC c (.pod v) =
+      some (runAll { c with pods := upsertBy (fun x => x.ns = v.ns ∧ x.name = v.name) v c.pods } [podEvOf c v]) := by
+  simp [stepC, hph]
 
 def runC (c : Ctl) : List Op → Ctl
   | [] => c
@@ -56,29 +74,47 @@ def NoHold (ops : List Op) : Prop := ∀ o ∈ ops, o ≠ Op.hold
 
 theorem runAll_nil (c : Ctl) : runAll c [] = c := rfl
 
-/-- On a state whose queue is empty and not held, `applyOp` is `stepC` on the controller part and
-    leaves the queue empty. -/
+/-- On a state whose queue is empty and not held, `applyOp` does to the controller part what `stepC`
+    does (an operation that is not applicable, or only touches the set of pods hidden from the informer,
+    leaves it unchanged) and leaves the queue empty. -/
 theorem applyOp_sync (s : State) (op : Op) (hq : s.queue = []) (hh : s.held = false) (hop : op ≠ Op.hold) :
-    applyOp s op = (stepC s.c op).map (fun c' => { c := c', queue := [], held := false }) := by
-  obtain ⟨c, q, h⟩ := s
+    ((applyOp s op).getD s).c = (stepC s.c op).getD s.c ∧ ((applyOp s op).getD s).queue = [] ∧
+    ((applyOp s op).getD s).held = false := by
+  obtain ⟨c, q, h, hid⟩ := s
   simp only at hq hh
   subst hq; subst hh
   cases op with
   | hold => exact absurd rfl hop
   | release => simp [applyOp, release, drain, stepC, runAll_nil]
-  | svc v => rfl
-  | slice v => rfl
-  | pod v => rfl
+  | svc v => exact ⟨rfl, rfl, rfl⟩
+  | slice v => exact ⟨rfl, rfl, rfl⟩
+  | ns v => exact ⟨rfl, rfl, rfl⟩
+  | pod v =>
+    simp only [applyOp, writePod, stepC]
+    by_cases hph : v.phase = "F"
+    · simp only [hph, if_true, evictPod]
+      cases findPod c.pods v.ns v.name <;> simp [enqueue, drain]
+    · simp only [hph, if_false]
+      exact ⟨rfl, rfl, rfl⟩
   | node v => simp [applyOp, writeNode, stepC]
   | delSvc ns n =>
-    simp only [applyOp, delSvc, stepC, Option.map_map]
+    simp only [applyOp, delSvc, stepC]
     cases findSvc c.svcs ns n <;> simp [enqueue, drain]
   | delSlice ns n =>
-    simp only [applyOp, delSlice, stepC, Option.map_map]
+    simp only [applyOp, delSlice, stepC]
     cases findSlice c.slices ns n <;> simp [enqueue, drain]
+  | delNs n =>
+    simp only [applyOp, delNs, stepC]
+    cases c.nss.find? (fun x => x.name = n) <;> simp [enqueue, drain]
   | delPod ns n =>
-    simp only [applyOp, delPod, stepC, Option.map_map]
-    cases findPod c.pods ns n <;> simp [enqueue, drain]
+    simp only [applyOp, delPod, stepC]
+    cases findPod c.pods ns n with
+    | some o => simp [enqueue, drain]
+    | none =>
+      simp only [Option.map, Option.getD]
+      by_cases hc : ns ++ "/" ++ n ∈ hid
+      · simp [hc]
+      · simp [hc]
   | delNode n =>
     simp only [applyOp, delNode, stepC]
     split <;> simp
@@ -91,12 +127,9 @@ theorem run_sync (ops : List Op) (s : State) (hq : s.queue = []) (hh : s.held = 
     have ho : o ≠ Op.hold := hn o (by simp)
     have hr : NoHold r := fun x hx => hn x (List.mem_cons_of_mem _ hx)
     simp only [run, runC]
-    rw [applyOp_sync s o hq hh ho]
-    cases hs : stepC s.c o with
-    | none => simp only [Option.map, Option.getD]; exact ih s hq hh hr
-    | some c' =>
-      simp only [Option.map, Option.getD]
-      exact ih { c := c', queue := [], held := false } rfl rfl hr
+    have h := applyOp_sync s o hq hh ho
+    rw [← h.1]
+    exact ih _ h.2.1 h.2.2 hr
 
 /-! ### store lemmas -/
 
@@ -157,18 +190,24 @@ theorem slice_write_inv (c : Ctl) (v : Slice) (c' : Ctl) (hstep : stepC c (.slic
       | inl h => exact absurd h hne
       | inr h => exact hinv.parked x h (fun hf => hf)
   -- the handler
-  have hrun : ∀ e, (e = Ev.slAdd v ∨ ∃ o, e = Ev.slUpd o v) → ∃ old, runAll c1 [e] = sliceUpsert c1 old v := by
+  have hrun : ∀ e, (e = Ev.slAdd v ∨ ∃ o, e = Ev.slUpd o v ∧ o.svc = v.svc) → ∃ old, runAll c1 [e] = sliceUpsert c1 old v := by
     intro e he
     cases he with
     | inl h => subst h; exact ⟨none, by simp [runAll, runEvents, handle, hfind]⟩
-    | inr h => obtain ⟨o, h⟩ := h; subst h; exact ⟨some o, by simp [runAll, runEvents, handle, hfind]⟩
+    | inr h =>
+      obtain ⟨o, h, hosvc⟩ := h
+      subst h
+      exact ⟨some o, by simp [runAll, runEvents, handle, hfind, sliceEvent, hosvc]⟩
   have : ∃ old, runAll c1 [match findSlice c.slices v.ns v.name with
       | none => Ev.slAdd v
       | some o => Ev.slUpd o v] = sliceUpsert c1 old v := by
     apply hrun
-    cases findSlice c.slices v.ns v.name with
+    cases hfo : findSlice c.slices v.ns v.name with
     | none => exact Or.inl rfl
-    | some o => exact Or.inr ⟨o, rfl⟩
+    | some o =>
+      have ho : o ∈ c.slices := List.mem_of_find?_eq_some hfo
+      have hon : o.ns = v.ns ∧ o.name = v.name := by simpa using List.find?_some hfo
+      exact Or.inr ⟨o, rfl, (hold o ho hon.1 hon.2).1⟩
   obtain ⟨old, hr⟩ := this
   show Inv (runAll c1 _)
   rw [hr]
@@ -253,13 +292,18 @@ theorem cacheGet_ne_nil_entry (c : SliceCache) (h : String) (hne : cacheGet c h 
     ∃ n eps, cacheEntry c h n = some eps := by
   unfold cacheGet at hne
   cases hl : alookup h c with
-  | none => rw [hl] at hne; simp [dedupEps] at hne
+  | none => rw [hl] at hne; simp [dedupEps, sortKeys] at hne
   | some per =>
-    cases per with
-    | nil => rw [hl] at hne; simp [dedupEps] at hne
-    | cons x r =>
-      obtain ⟨n, eps⟩ := x
-      exact ⟨n, eps, by simp [cacheEntry, hl, alookup]⟩
+    rw [hl] at hne
+    simp only [Option.getD] at hne
+    cases hf : (sortKeys per).flatMap (·.2) with
+    | nil => rw [hf] at hne; simp [dedupEps] at hne
+    | cons e r =>
+      have he : e ∈ (sortKeys per).flatMap (·.2) := by rw [hf]; simp
+      obtain ⟨ne, hne1, _⟩ := List.mem_flatMap.mp he
+      obtain ⟨n, eps⟩ := ne
+      obtain ⟨v', hv'⟩ := alookup_some_of_mem per n eps ((mem_sortKeys _ _).mp hne1)
+      exact ⟨n, v', by simp [cacheEntry, hl, hv']⟩
 
 theorem refreshIndex_fields (c : Ctl) (v : Svc) :
     (refreshIndex c v).slices = c.slices ∧ (refreshIndex c v).svcs = c.svcs ∧ (refreshIndex c v).pods = c.pods ∧
@@ -337,6 +381,7 @@ def SvcIrrelevant (c : Ctl) (host : String) (a b : Option Svc) : Prop :=
 theorem svc_write_inv (c : Ctl) (v : Svc) (c' : Ctl) (hstep : stepC c (.svc v) = some c')
     (hinv : Inv c)
     (hwf : WF { c with svcs := upsertBy (fun x => x.ns = v.ns ∧ x.name = v.name) v c.svcs })
+    (hconv : convNs c.nss v = v)
     (hstable : SvcIrrelevant c v.host (alookup v.host c.smap) (some v)) :
     Inv c' := by
   simp only [stepC, Option.some.injEq] at hstep
@@ -349,7 +394,8 @@ theorem svc_write_inv (c : Ctl) (v : Svc) (c' : Ctl) (hstep : stepC c (.svc v) =
   have hrun : runAll c1 [match findSvc c.svcs v.ns v.name with
       | none => Ev.svcAdd v
       | some o => Ev.svcUpd o v] = serviceUpsert c1 v := by
-    cases findSvc c.svcs v.ns v.name <;> simp [runAll, runEvents, handle, hfind]
+    have hc1 : convNs c1.nss v = v := hconv
+    cases findSvc c.svcs v.ns v.name <;> simp [runAll, runEvents, handle, hfind, hc1]
   show Inv (runAll c1 _)
   rw [hrun]
   unfold serviceUpsert
@@ -504,5 +550,50 @@ theorem svc_delete_inv (c : Ctl) (ns name : String) (c' : Ctl) (hstep : stepC c 
           rw [alookup_aerase_other _ _ _ hh]
         · show alookup h (aerase o.host c.smap) = _
           rw [alookup_aerase_other _ _ _ hh]
+
+/-! ### Namespace writes -/
+
+/-- A Namespace write touches only the namespace store when no Service of the store lives in it
+    (the namespace is seen before its Services); `reprocessServicesInNamespace` then has nothing to do. -/
+theorem reprocessNs_none (c : Ctl) (name : String) (h : ∀ sv ∈ c.svcs, sv.ns ≠ name) : reprocessNs c name = c := by
+  have hnone : c.svcs.filter (fun sv => decide (sv.ns = name)) = [] := by
+    apply List.filter_eq_nil_iff.mpr
+    intro sv hsv
+    simpa using h sv hsv
+  simp [reprocessNs, hnone]
+
+theorem ns_write_ctl (c : Ctl) (v : Ns) (h : ∀ sv ∈ c.svcs, sv.ns ≠ v.name) :
+    stepC c (.ns v) = some { c with nss := upsertBy (fun x => x.name = v.name) v c.nss } := by
+  simp only [stepC, Option.some.injEq]
+  have hfind : (upsertBy (fun x => decide (x.name = v.name)) v c.nss).find? (fun n => decide (n.name = v.name)) = some v := by
+    apply find_upsertBy
+    simp
+  have hre := reprocessNs_none { c with nss := upsertBy (fun x => decide (x.name = v.name)) v c.nss } v.name h
+  cases c.nss.find? (fun n => n.name = v.name) with
+  | none =>
+    simp only [runAll, runEvents, handle, hfind]
+    split <;> simp [hre, runEvents]
+  | some o =>
+    simp only [runAll, runEvents, handle, hfind]
+    split <;> simp [hre, runEvents]
+
+theorem ns_delete_ctl (c : Ctl) (name : String) (c' : Ctl) (h : ∀ sv ∈ c.svcs, sv.ns ≠ name)
+    (hstep : stepC c (.delNs name) = some c') :
+    c' = { c with nss := c.nss.filter (fun x => !(x.name = name)) } := by
+  simp only [stepC] at hstep
+  cases hf : c.nss.find? (fun n => n.name = name) with
+  | none => rw [hf] at hstep; cases hstep
+  | some o =>
+    rw [hf] at hstep
+    simp only [Option.map, Option.some.injEq] at hstep
+    rw [← hstep]
+    have hon : o.name = name := by simpa using List.find?_some hf
+    have hre := reprocessNs_none { c with nss := c.nss.filter (fun x => !(decide (x.name = name))) } o.name (by rw [hon]; exact h)
+    simp only [runAll, runEvents, handle]
+    split <;> simp [hre, runEvents]
+
+theorem InvExcept.of_nss {c : Ctl} {P : Slice → Prop} (h : InvExcept c P) (nss' : List Ns) :
+    InvExcept { c with nss := nss' } P :=
+  ⟨h.fresh, h.noForeign, h.parked, h.smapSome, h.smapOnly, h.index, h.nodup⟩
 
 end IstioModel.C15
